@@ -60,6 +60,10 @@ def run_state(s):
     return globals()["part_" + s["part"]](s)
 
 
+# the dictionary's zero-alpha coefficients must not enter the drag estimates: full-span cases carry non-zero CL0 / CD0 entries
+DICT_EXTRAS = {True: dict(CL0=0.0, CD0=0.0), False: dict(CL0=0.15, CD0=0.02)}
+
+
 def drag_problem(mesh, sym, k_lam=0.05, with_viscous=True, with_wave=True, CL0=0.0, CD0=0.0):
     from openaerostruct.aerodynamics.geometry import VLMGeometry
     from openaerostruct.aerodynamics.viscous_drag import ViscousDrag
@@ -91,7 +95,7 @@ def ev(p, **kw):
 
 def part_re(s):
     m = wing(s["sweep"], s["sym"])
-    p = drag_problem(m, s["sym"], k_lam=s["k_lam"])
+    p = drag_problem(m, s["sym"], k_lam=s["k_lam"], **DICT_EXTRAS[bool(s["sym"])])
     ny = m.shape[1]
     chord = 1.3
     viol, vals = [], []
@@ -114,7 +118,7 @@ def part_tc(s):
     ny = m.shape[1]
     if s["k_lam"] and s["re"] * 1.3 * s["k_lam"] <= 1e3:
         return dict(viol=[], nontrivial=False, digest="inadm", transitions=0, validated=0, inadmissible=True)
-    p = drag_problem(m, s["sym"], k_lam=s["k_lam"])
+    p = drag_problem(m, s["sym"], k_lam=s["k_lam"], **DICT_EXTRAS[bool(s["sym"])])
     vals = np.array([ev(p, re=s["re"], Mach_number=s["M"], t_over_c=np.full(ny - 1, t))[0] for t in TC])
     viol = []
     if not np.all(np.diff(vals) > 0):
@@ -173,7 +177,7 @@ def part_wave(s):
 def part_off(s):
     m = wing(20.0, s["sym"])
     ny = m.shape[1]
-    p = drag_problem(m, s["sym"], with_viscous=s["which"] != "viscous", with_wave=s["which"] != "wave")
+    p = drag_problem(m, s["sym"], with_viscous=s["which"] != "viscous", with_wave=s["which"] != "wave", **DICT_EXTRAS[bool(s["sym"])])
     cdv, cdw = ev(p, Mach_number=s["M"], t_over_c=np.full(ny - 1, s["tc"]), CL=0.6)
     v = cdv if s["which"] == "viscous" else cdw
     other = cdw if s["which"] == "viscous" else cdv
@@ -191,7 +195,7 @@ def part_res(s):
     for nx, ny, cs in itertools.product(nxs, nys, [0.0, 1.0, "root", "tip"]):
         nyh = (ny + 1) // 2 if s["sym"] else ny
         m = wing(s["sweep"], s["sym"], nx=nx, ny=nyh, cos_y=cs if not isinstance(cs, str) else 0.0, cluster=cs if isinstance(cs, str) else None)
-        p = drag_problem(m, s["sym"], k_lam=s["k_lam"])
+        p = drag_problem(m, s["sym"], k_lam=s["k_lam"], **DICT_EXTRAS[bool(s["sym"])])
         out.append(ev(p, re=2e6, Mach_number=0.84, CL=0.5, t_over_c=np.full(m.shape[1] - 1, 0.12)))
     out = np.array(out)
     viol = []
